@@ -8,9 +8,11 @@ v('c18-missing-comma','R-C18.1',C,"        'change_meta',\n        'delete_colum
 v('c18-typo','R-C18.1',C,"        'delete_column',\n    )","        'delete_columns',\n    )")
 v('c18-drop-member','R-C18.1',C,"        'add_column',\n        'change_column',","        'change_column',")
 v('c18-new-result-on-merge','R-C18.2',C,"            sql_result = prev_sql_result\n","            sql_result = self.alter_table_sql_result_cls(self, model)\n            sql_result.add(prev_sql_result)\n",note='merges by copying: previous result is still emitted separately')
-v('c18-mergeable-or','R-C18.2',C,"""        return (op1['type'] in self.mergeable_ops and
-                op2['type'] in self.mergeable_ops)""","""        return (op1['type'] in self.mergeable_ops and
-                op2['type'] == op1['type'])""")
+v('c18-mergeable-or','R-C18.2',C,"""        return (self._is_op_mergeable(op1) and
+                self._is_op_mergeable(op2))""","""        return (self._is_op_mergeable(op1) or
+                self._is_op_mergeable(op2))""",note='one mergeable op is enough: a non-mergeable op is merged into a rebuild')
+v('c18-mergeable-one-sided','R-C18.2',C,"""        return (self._is_op_mergeable(op1) and
+                self._is_op_mergeable(op2))""","""        return self._is_op_mergeable(op2)""")
 v('c18-append-always','R-C18.2',C,"""            if sql_result is not prev_sql_result:
                 sql_results.append(sql_result)
                 prev_sql_result = sql_result""","""            sql_results.append(sql_result)
